@@ -31,6 +31,7 @@ def run(chk):
     chk.rule('C20-R1', 'validation (missing file / missing field, all files x all fields) precedes every write', 3)
     chk.rule('C20-R2', 'per field: write(count:int64) ; write(width:int32) ; for each file write(payload) -- in this order, count = sum of prod(shape), width = itemsize', 5)
     chk.rule('C20-R3', 'fields and files are iterated in argument order; the CLI forwards -f occurrences and file arguments in order', 3)
+    chk.rule('C20-R5', 'nothing but the framed stream goes to the pipe: every print in the module is directed to sys.stderr, no sys.stdout.write', 1)
     chk.rule('C20-R4', 'reader agreement: client.c reads sizeof(int64_t), sizeof(int), payload per field; docstring says 8-byte and 4-byte ints', 2)
     chk.assume('the bytes asdf/blosc deliver for the payload arrays are not modelled')
     body = fn.body
@@ -104,6 +105,13 @@ def run(chk):
             wdef_ok = True
     nadds = sum(1 for lp_ in acc for n in ast.walk(lp_) if isinstance(n, ast.AugAssign) and unparse(n.target) == cnt)
     oka = oka and nadds == 1
+    # the count and the width are taken from EVERY file: no continue / break in those loops, the assignments are unconditional,
+    # and the width is (re)bound inside the per-field loop (a value left over from the previous field is never written)
+    skips = [n for lp_ in acc for n in ast.walk(lp_) if isinstance(n, (ast.Continue, ast.Break))]
+    wtop = any(isinstance(x, ast.Assign) and unparse(x.targets[0]) == wid for lp_ in acc for x in lp_.body)
+    if skips or not wtop:
+        wdef_ok = False
+        oka = oka and not skips
     chk.check(okc and oka, 'C20-R2', PA, Q, 'count = int64 sum over files of prod(shape) of this field', f'{cnt}',
               f'count header: initialised as {unparse(cdef[0].value) if cdef else None}, accumulation recognised={oka}: the 8-byte element count would be wrong', node=cdef[0] if cdef else F)
     chk.check(wdef_ok, 'C20-R2', PA, Q, 'width = int32 itemsize of this field', f'{wid}',
@@ -158,3 +166,16 @@ def run(chk):
                   f'client fread sequence {seqc} does not match the writer (8, 4, payload)', nf=seqc)
     else:
         chk.assumed('C20-R4', CL, 'main', 'client source present', 'pipe_asdf/client.c not found; reader agreement not checked')
+    # ---- R5: the default pipe is sys.stdout.buffer: anything printed to standard output lands inside the binary stream
+    bad_out = []
+    for n in ast.walk(src.tree(PA)):
+        if isinstance(n, ast.Call) and dotted(n.func) == 'print':
+            f = [k for k in n.keywords if k.arg == 'file']
+            if not f or dotted(f[0].value) not in ('sys.stderr',):
+                bad_out.append(n)
+        if isinstance(n, ast.Call) and dotted(n.func) in ('sys.stdout.write', 'sys.stdout.buffer.write'):
+            bad_out.append(n)
+    chk.check(not bad_out, 'C20-R5', PA, '<module>', 'diagnostics go to sys.stderr only', '',
+              '; '.join(f'line {n.lineno}: {unparse(n)[:60]}' for n in bad_out[:3]) + ': text written to standard output is interleaved with the count / width / payload frames', node=bad_out[0] if bad_out else None)
+
+
